@@ -107,7 +107,8 @@ def run_two(lines_a, replies_a, lines_b, replies_b):
     return out, raised
 
 
-def run_sim(lines, replies, delays=None, want_peer=False):
+def run_sim(lines, replies, delays=None, want_peer=False, as_=None):
+    """as_: how the lines are handed over - a list (default), a generator or an open binary file (one-shot iterables)"""
     from senaite.astm import simulator
     loop = impl.ensure_loop()
     own_loop = None
@@ -122,7 +123,13 @@ def run_sim(lines, replies, delays=None, want_peer=False):
     raised = None
     try:
         try:
-            loop.run_until_complete(simulator.send_message(list(lines), "127.0.0.1", 4010, delay=0))
+            arg = list(lines)
+            if as_ == "generator":
+                arg = (l for l in list(lines))
+            elif as_ == "file":
+                import io
+                arg = io.BytesIO(b"".join(l if l.endswith(b"\n") else l + b"\n" for l in lines))
+            loop.run_until_complete(simulator.send_message(arg, "127.0.0.1", 4010, delay=0))
         except Exception as e:  # noqa
             raised = type(e).__name__
     finally:
@@ -207,9 +214,14 @@ def run(ctx):
     lines_m = ["sim " + " ".join("L:" + hexb(l) for l in lines) + " " + " ".join("R:" + hexb(x) for x in replies)
                for lines, replies in cases]
     model = common.drive(lines_m) if ctx.driver_ok else [None] * len(cases)
-    for (lines, replies), ml in zip(cases, model):
-        trace, raised = run_sim(lines, replies)
+    for k_case, ((lines, replies), ml) in enumerate(zip(cases, model)):
+        as_ = None
+        if k_case % 7 == 3 and all(b"\n" not in l[:-1] and b"\r" not in l.rstrip(b"\r\n") for l in lines):
+            as_ = "generator" if k_case % 2 else "file"      # the lines of a file may come as any iterable
+        trace, raised = run_sim(lines, replies, as_=as_)
         case = {"lines": [hexb(l) for l in lines], "replies": [hexb(x) for x in replies]}
+        if as_:
+            case["lines_given_as"] = as_
         blanks = any(not l.strip(b"\r\n") for l in lines)
         refusal_mid = any(x != b"\x06" for x in replies[2:-1])
         s.case(case, nontrivial=blanks or refusal_mid)
